@@ -122,15 +122,19 @@ CHECKS = {
           "are equal. The key fields (resolved __cache_state__ through the real "
           "MRO + decorator attrs), read fields (transitive, with constant "
           "propagation of None/True/False arguments) and mutators (writes, "
-          "bumps, resets via re-run constructors) of all 23 Cached classes are "
+          "bumps, resets via re-run constructors, and one implicit mutator "
+          "per constructor-configuration attribute a cached method reads and "
+          "a user may assign directly) of all 28 Cached classes are "
           "regenerated from the source on every run; the boolean adequacy "
           "decision is proved sound and evaluated on them by vm_compute; "
           "every rejected (class, method, mutator) triple must be in a short "
           "justified list. Correspondence: lru_cache statistics and counter "
           "movements of the running objects vs the tables. Search: random "
           "mutator histories on 9 classes, every query compared with two "
-          "fresh twins, query order shuffled.",
-  "design_ref": "DESIGN.md section 5, C01",
+          "fresh twins, query order shuffled (13 families incl. "
+          "JointRecurrencePlot with identical series, sequential-RQA plots, "
+          "Surrogates around a normalisation, ResNetwork topology changes).",
+  "design_ref": "DESIGN.md section 5, C01; section 10.2",
   "note": "trusted: translator py_cache_facts.py (static over-approximation "
           "of reads/writes; in-place edits through aliases other than "
           "self.attr / loop variables over self.attr are not seen); hash "
